@@ -238,6 +238,60 @@ def i_diag(F, res, variants=("DuplicateDefinition",)):
             res.add([finding("I-DIAG", key, w, "the `%s` diagnostic exists but is never raised: definitions whose names collide (after normalisation) are accepted silently" % v)])
 
 
+KEY_TRANSPARENT = ("std::string::ToString::to_string", "std::borrow::ToOwned::to_owned", "std::convert::From::from", "std::convert::Into::into",
+                   "std::clone::Clone::clone", "<str as std::string::ToString>::to_string")
+
+
+def f_shadow(F, res):
+    """F-SHADOW: a name the program declares is never replaced in the scope by a built-in symbol.  In every analyze() body of
+    the analyzer (the Scope helpers inlined) a symbol inserted under a *literal* name (a payload-free built-in value such as `fees`) must not be
+    inserted after symbols whose names come from the program (parameters, ..): the later insertion wins, so a parameter of that name would
+    resolve to the built-in - the interface still declares the parameter, the IR no longer requires it."""
+    n = 0
+    for p, f0 in sorted(F.fns.items()):
+        if f0["crate"] != "tx3_lang" or f0.get("impl_trait") != "tx3_lang::analyzing::Analyzable" or f0.get("name") != "analyze":
+            continue
+
+        def want(t, callee):
+            return callee["crate"] == "tx3_lang" and not callee.get("impl_trait") and callee["file"] == f0["file"] and len(callee["blocks"]) <= 60
+        body = None
+        raw = [t for _, t in mir.calls(f0)]
+        if not any("track_" in (t.get("callee") or "") or (t.get("callee") or "").endswith("::insert") for t in raw):
+            continue
+        body = mir.inline_calls(F, f0, want=want, depth=2)
+        du = mir.DefUse(body)
+        cfg = mir.CFG(body)
+        lit, user = [], []
+        for bi, t in mir.calls(body):
+            c = t.get("callee") or ""
+            if not (c.endswith("::insert") and "HashMap" in c and len(t["args"]) == 3):
+                continue
+            vp = mir.op_place(t["args"][2])
+            if vp is None or "ast::Symbol" not in body["locals"][vp["l"]]:
+                continue
+            ko = mir.provenance(body, du, t["args"][1], transparent_extra=KEY_TRANSPARENT)
+            # built-in *values* only (a payload-free symbol such as Symbol::Fees, which resolves wherever a parameter would);
+            # a built-in definition (the Ada asset) colliding with a program name of another kind is diagnosed where it is used
+            vo = mir.provenance(body, du, t["args"][2])
+            unit = bool(vo) and all((o.kind == "agg" and not o.rv.get("ops")) or o.kind == "const" for o in vo)
+            if ko and all(o.kind == "const" for o in ko) and unit:
+                lit.append((bi, t, sorted({str(o.const.get("str")) for o in ko})))
+            else:
+                user.append((bi, t))
+        if not lit:
+            continue
+        for bi, t, names in lit:
+            n += 1
+            key = "%s|built-in `%s` is in scope before the program's names" % (p, "/".join(names))
+            after = [ub for ub, _ in user if bi in cfg.reach_from(ub) and ub != bi]
+            if after:
+                res.add([finding("F-SHADOW", key, where(f0, t["line"]), "the built-in symbol `%s` is inserted into the scope after names taken from the program: a parameter called `%s` resolves to the built-in, so the IR does not require the key the interface declares" % ("/".join(names), "/".join(names)))])
+            else:
+                res.add([ok("F-SHADOW", key, where(f0, t["line"]), "inserted before any program-given name: a declared name of the same spelling shadows it")])
+    res.count("built-in scope entries", n)
+    res.floor("built-in scope entries", n, 1)
+
+
 def run(ctx):
     F = ctx.F
     res = Result("C17")
@@ -249,6 +303,8 @@ def run(ctx):
     f_norm(F, res)
     n = c06.t1(F, res, only={"params", "components"}, rule="F-REQUIRES")
     res.floor("key-reporting traversal impls", n, 20)
+    res.rule("F-SHADOW", "a declared name is never replaced in the scope by a built-in symbol inserted later")
+    f_shadow(F, res)
     f_embed(F, res)
     c11.wire(F, res)
     i_diag(F, res)
